@@ -199,7 +199,8 @@ def valid_kwargs(sig, net, rng, n=None):
         elif p == "et":
             continue
         elif p == "std_type":
-            kw[p] = {"pipe": rng.choice(["80_GGG", "125_PE_100_SDR_17", "200_ST<16"]), "pump": rng.choice(["P1", "P2"])}[sig.table]
+            lib = sorted(net.std_types[sig.table].keys())        # the whole library, incl. the heat types with u_w_per_mk
+            kw[p] = rng.choice(lib) if rng.random() < 0.7 or sig.table != "pipe" else rng.choice([x for x in lib if "ISOPLUS" in x] or lib)
         elif p == "new_std_type_name":
             kw[p] = "Pnew%d" % rng.randint(0, 2)
             kw["poly_coefficents"] = [-1.0, 0.0, 6.0]
@@ -643,6 +644,78 @@ def monitor_bulk_vs_fold(ctx, sigs, twins):
                           "%s differs from %d x %s in table %s: %s (%s)" % (bn, n, tn, d[0], d[1], variant), replay)
 
 
+def monitor_bulk_series(ctx, sigs, twins):
+    """bulk functions fed with pandas Series (RangeIndex 0..n-1) into tables that already hold k = 0..n+1 rows:
+    must equal the fold of the single twin (values are positional, whatever the labels overlap)"""
+    import pandas as pd
+    import pandapipes as pp
+    byname = {s.fn: s for s in sigs}
+    n = 3
+    for (bn, tn), k in itertools.product(twins, range(0, n + 2)):
+        b = byname[bn]
+        net0 = pp.create_empty_network(fluid="water")
+        if b.table == "junction":
+            if k:
+                pp.create_junctions(net0, k, 5.0, 300.0)
+        else:
+            pp.create_junctions(net0, 5, 5.0, 300.0)
+            if b.table != "pipe":
+                pp.create_pipes_from_parameters(net0, [0, 1, 2], [1, 2, 3], 1.0, 100.0)
+        if b.table not in net0:
+            continue
+        if k and b.table != "junction":
+            kwk, _ = valid_kwargs(b, net0, ctx.rng, n=k)
+            getattr(pp, bn)(net0, **kwk)
+            if len(net0[b.table]) != k:
+                continue
+        kw, _ = valid_kwargs(b, net0, ctx.rng, n=n)
+        for p, dflt in b.params:
+            if p in kw or p in ("index", "geodata", "std_type", "name") or dflt == tsig.REQUIRED or (b.eg and p == "type"):
+                continue
+            vals = OPT_VALUES.get(p)
+            if vals is not None:
+                kw[p] = [vals[i % len(vals)] for i in range(n)]
+        kw["name"] = ["n%d" % i for i in range(n)]      # (an omitted name in an empty table is a known difference)
+        for p in list(kw):
+            if not isinstance(kw[p], (list, tuple)) and tsig.singular(p) in VAL and p != "nr_junctions":
+                kw[p] = [kw[p] * (1 + i) for i in range(n)]      # distinct values per row
+        kws = {p: (pd.Series(v) if isinstance(v, (list, tuple)) and p not in ("et", "std_type") else v) for p, v in kw.items()}
+        na, nb = copy.deepcopy(net0), copy.deepcopy(net0)
+        replay = {"bulk": bn, "single": tn, "rows_before": k, "kwargs_as_series": jsonable(kw),
+                  "how": "empty net, 5 junctions (+3 pipes); %d rows in %s; %s(net, **{k: pd.Series(v)})" % (k, b.table, bn)}
+        ctx.case({"bulk_series": bn, "rows_before": k}, 0 < k < n)
+        ctx.count("bulk_series")
+        try:
+            getattr(pp, bn)(na, **kws)
+            ra = "ok"
+        except Exception as e:  # noqa: BLE001
+            ra = type(e).__name__ + ": " + str(e)[:100]
+        rb = "ok"
+        for i in range(n):
+            k1 = {"check_controllability": False} if tn == "create_pressure_control" else {}
+            for p, v in kw.items():
+                if p != "nr_junctions":
+                    k1[tsig.singular(p)] = v[i] if isinstance(v, (list, tuple)) else v
+            try:
+                getattr(pp, tn)(nb, **k1)
+            except Exception as e:  # noqa: BLE001
+                rb = type(e).__name__ + ": " + str(e)[:100]
+                break
+        if (ra == "ok") != (rb == "ok"):
+            ctx.violation({"clause": "bulk_eq_fold", "fn": bn, "variant": "series", "kind": "outcome"},
+                          "%s with pandas Series arguments (%d rows already in %s) -> %s but %d x %s -> %s"
+                          % (bn, k, b.table, ra, n, tn, rb), replay)
+            continue
+        if ra != "ok":
+            continue
+        d = first_table_diff(table_snap(na), table_snap(nb))
+        if d:
+            ctx.violation({"clause": "bulk_eq_fold", "fn": bn, "variant": "series", "kind": "tables",
+                           "column": d[1].split("[")[0].split(":")[0]},
+                          "%s with pandas Series arguments (%d rows already in %s) differs from %d x %s in table %s: %s"
+                          % (bn, k, b.table, n, tn, d[0], d[1]), replay)
+
+
 OPT_VALUES = {"height_m": [3.0, 0.0, 12.0], "name": ["a", "b", None], "in_service": [True, False, True],
               "type": ["x", "y", "z"], "scaling": [1.0, 0.5, 2.0], "loss_coefficient": [0.0, 1.5, 0.25],
               "sections": [1, 3, 2], "text_k": [283.0, 293.0, 300.0], "k_mm": [0.1, 0.2, 0.5],
@@ -661,7 +734,42 @@ def monitor_std_vs_parameters(ctx):
     if sorted(names) != sorted(map(str, lib.columns if "inner_diameter_mm" in lib.index else lib.index)):
         ctx.note("std-type names of the net differ from Pipe.csv header (%d vs %d)" % (len(names), len(lib)))
     seen = set()
+    pristine = deep_snapshot(proto)["std_types"]
     for nm in names:
+        # ---- repeated use of one std type: the library is read-only, every creation gives the same row
+        net = pp.create_empty_network(fluid="water")
+        pp.create_junctions(net, 2, 5, 300)
+        replay = {"std_type": nm, "how": "create_pipe(net,0,1,std,2.0) twice; create_pipes(net,[0,0],[1,1],[std,std],2.0); "
+                                         "create_pipe(..., k_mm=0.77, u_w_per_m2k=3.3); create_pipe(...) again"}
+        steps = [("create_pipe", lambda: pp.create_pipe(net, 0, 1, nm, 2.0)),
+                 ("create_pipe (2nd)", lambda: pp.create_pipe(net, 0, 1, nm, 2.0)),
+                 ("create_pipes [std, std]", lambda: pp.create_pipes(net, [0, 0], [1, 1], [nm, nm], 2.0)),
+                 ("create_pipes std", lambda: pp.create_pipes(net, [0, 0], [1, 1], nm, 2.0)),
+                 ("create_pipe with k_mm / u overrides", lambda: pp.create_pipe(net, 0, 1, nm, 2.0, k_mm=0.77, u_w_per_m2k=3.3)),
+                 ("create_pipe (after override)", lambda: pp.create_pipe(net, 0, 1, nm, 2.0))]
+        ctx.count("std_type_reuse")
+        for what, f in steps:
+            try:
+                f()
+            except Exception as e:  # noqa: BLE001
+                ctx.violation({"clause": "std_type_reuse", "what": "raises", "step": what},
+                              "%s from std type %r (used before on the same net) raises %s: %s" % (what, nm, type(e).__name__, str(e)[:120]), replay)
+                break
+            if deep_snapshot(net)["std_types"] != pristine:
+                ctx.violation({"clause": "std_type_reuse", "what": "library_mutated", "step": what},
+                              "%s from std type %r changed net.std_types" % (what, nm), replay)
+                break
+        else:
+            rows = table_snap(net)["pipe"]
+            cols = rows["columns"]
+            ref = rows["values"][0]
+            for i, r in enumerate(rows["values"]):
+                bad = [(c, _unhex(x), _unhex(y)) for c, x, y in zip(cols, ref, r) if x != y and c not in ("name",) and
+                       not (i == 6 and c in ("k_mm", "u_w_per_m2k")) and not (c == "text_k")]
+                if bad:
+                    ctx.violation({"clause": "std_type_reuse", "what": "rows_differ", "column": bad[0][0]},
+                                  "pipes created from the same std type %r differ: row 0 vs row %d: %s" % (nm, i, bad[:3]), replay)
+                    break
         par = load_std_type(proto, nm, "pipe")
         for variant in ("defaults", "explicit"):
             if ctx.quick and variant == "explicit" and nm not in names[::9]:
@@ -866,6 +974,7 @@ def run(ctx):
     timed("coq_correspondence", correspond, ctx, cases, meta)
     timed("eg_types", monitor_eg_types, ctx)
     timed("bulk_vs_fold", monitor_bulk_vs_fold, ctx, sigs, twins)
+    timed("bulk_series", monitor_bulk_series, ctx, sigs, twins)
     timed("std_vs_parameters", monitor_std_vs_parameters, ctx)
     timed("value_faults", monitor_value_faults, ctx, sigs)
     timed("generated_lists", monitor_generated_lists, ctx, raw)
